@@ -74,6 +74,8 @@ def summaryOf (name : String) (flag : Bool) (keys : List Nat) : Option (List Eff
   | "rot90" => some (Summary.rot90 flag keys)
   | "mulUnitsPinned" => some Summary.mulUnitsPinned
   | "mulUnitsFixed" => some Summary.mulUnitsFixed
+  | "unitsMulNone" => some (Summary.unitsMulNone flag)
+  | "unitsNew" => some Summary.unitsNew
   | _ => none
 
 def indexOf (l : List Nat) (p : Nat → Bool) : Option Nat :=
@@ -108,6 +110,15 @@ def resultDesc (h0 h : Heap) (srcs : List Nat) (next0 : Nat) : Val → Sx
   | .arr a => .list [.atom "array", arrDesc h0 h srcs (some a)]
   | .py => .atom "py"
 
+/-- a history step: a `MutT`, or `insert_deriv(k, d)` with the existing object `d` as operand -/
+inductive Step where
+  | mut (m : MutT)
+  | alias (k d : Nat)
+
+def applyStep (h : Heap) (t : Nat) : Step → Heap
+  | .mut m => applyMutT h t m
+  | .alias k d => insertAlias h t k d
+
 def parseMutT : Sx → Option MutT
   | .atom "write" => some (.own (.write 41))
   | .atom "writeMask" => some (.own (.writeMask 42))
@@ -115,9 +126,17 @@ def parseMutT : Sx → Option MutT
   | .atom "setUnits" => some (.own (.setUnits none))
   | .atom "freeze" => some (.own .freeze)
   | .list [.atom "dwrite", k] => k.toNat?.map fun k => .deriv k (.write 44)
+  | .list [.atom "drebind", k] => k.toNat?.map fun k => .deriv k (.rebindVals 46)
   | .list [.atom "insert", k] => k.toNat?.map fun k => .insertDeriv k 45
   | .list [.atom "delete", k] => k.toNat?.map fun k => .deleteDeriv k
   | _ => none
+
+def parseStep : Sx → Option Step
+  | .list [.atom "alias", k, d] => do
+    let k ← k.toNat?
+    let d ← d.toNat?
+    some (.alias k d)
+  | x => (parseMutT x).map .mut
 
 /-- executable version of `SameObsT`: the object, its derivative set and objects, their ndarrays and buffers -/
 def obsEq (h h' : Heap) (x : Nat) : Bool :=
@@ -154,13 +173,13 @@ def handle : List Sx → Sx
      .list (.atom "arrs" :: arrs), root] =>
     -- c = root.copy(); apply the mutators to the source (side = T) or to the copy (side = F); is the complete
     -- observation of the other one unchanged ?
-    match side.toBool?, muts.mapM parseMutT, next.toNat?, objs.mapM parseObj, arrs.mapM parseArr, root.toNat? with
+    match side.toBool?, muts.mapM parseStep, next.toNat?, objs.mapM parseObj, arrs.mapM parseArr, root.toNat? with
     | some side, some muts, some next, some objs, some arrs, some root =>
       let h0 := mkHeap next objs arrs
       let r := copyObj h0 root
       let h1 := r.1
       let c := r.2
-      let h2 := runHistT h1 root c (muts.map fun m => (side, m))
+      let h2 := muts.foldl (fun h m => applyStep h (if side then root else c) m) h1
       let other := if side then c else root
       .list [.atom "same", Sx.ofBool (obsEq h1 h2 other)]
     | _, _, _, _, _, _ => err "operand"
